@@ -205,6 +205,7 @@ def run_task(task):
     bad = models.check_honest_against_lp(lp)
     if bad:
         raise HarnessError(f"translator validation failed: honest HiGHS answer violates translated LP: {bad[:3]}")
+    _tolerance_obligation(task, m, inner, G, lp, res)
     enc = smt.Enc(lp)
     cols = models.edge_cols(inner)
     s = enc.solver(60000)
@@ -296,6 +297,45 @@ def run_task(task):
     return res
 
 
+def _tolerance_obligation(task, m, inner, G, lp, res):
+    """HiGHS may report an integer column anywhere within its 1e-9 integrality tolerance: the honest answer with every
+    integer column moved by 1e-11 (down if >= 1, up otherwise; rows then stay within the 1e-9 feasibility tolerance) is a legal answer and must decode to the same valid routes"""
+    if lp.honest_vals is None:
+        return
+    for direction in (-1, +1):
+        vals = []
+        for j, v in enumerate(lp.honest_vals):
+            if lp.is_int[j]:
+                r = round(v)
+                vals.append(r + direction * 1e-11 if (direction < 0 and r >= 1) or (direction > 0) else float(r))
+            else:
+                vals.append(v)
+        res["obligations"] += 1
+        res["extra"]["traces_validated_against_impl"] = res["extra"].get("traces_validated_against_impl", 0) + 1
+        try:
+            sol = _inject_and_decode(inner, vals)
+        except Exception as e:
+            res["violations"].append({"signature": f"{task['cls']}:tolerance-answer-decode-raises-{type(e).__name__}", "summary": f"{task['name']}: {type(e).__name__}: {e}",
+                                      "replay": {"kind": "inject", "task": task, "values": [repr(v) for v in vals]}})
+            continue
+        key = _sol_key(task["cls"])
+        refG, _nm = _decode_reference_graph(task, m, inner, G)
+        st, en = _starts_ends_for_inner(task, m, inner)
+        allow_empty = bool(getattr(inner, "allow_empty_paths", False) or getattr(inner, "allow_empty_walks", False))
+        pr = []
+        for r_ in sol[key]:
+            if len(r_) == 0:
+                if not allow_empty:
+                    pr.append("empty route although empty routes are not allowed")
+                continue
+            pr += checkers.route_problems(refG, r_, st, en, simple=task["cls"] not in models.CYCLIC)
+        if pr:
+            res["violations"].append({"signature": f"{task['cls']}:tolerance-answer:{_classify(pr)}", "summary": f"{task['name']}: integer columns at v{'-' if direction < 0 else '+'}1e-11: {pr[0]}",
+                                      "replay": {"kind": "inject", "task": task, "values": [repr(v) for v in vals]}})
+        else:
+            res["discharged"] += 1
+
+
 def _classify(probs):
     p = probs[0]
     if "not a node of the input graph" in p:
@@ -385,7 +425,7 @@ def replay(data):
         return bool(probs)
     if data["kind"] == "inject":
         from fractions import Fraction
-        vals = [float(Fraction(v)) for v in data["values"]]
+        vals = [float(Fraction(v)) if "/" in v else float(v) for v in data["values"]]
         # the accepted model is the last one optimised: inject into it
         state = {}
 
